@@ -151,6 +151,12 @@ pub fn run(prop: &str, a: &Args, rep: &mut Report) {
             }
         }
     }
+    // both extreme jump displacements taken (+32767 and -32768), on every engine
+    if a.shard == 0 && !cfg!(miri) && a.variant != "valgrind" {
+        batch.push(pre_run(crate::genp::gen_extreme_jumps(), "long#extreme-jumps".into(), 4_000_000));
+        rep.set("long_cells", "extreme-jumps");
+        handle(rep, std::mem::take(&mut batch));
+    }
     // programs of mixed sizes whose native code spans one to many pages, built, compiled, run and
     // dropped by 8 threads at once
     if !par_long.is_empty() {
